@@ -30,7 +30,7 @@ VERIF = Path(__file__).resolve().parents[1]
 REPO = Path(os.environ.get('HOMONIM_REPO', '/repo'))
 OUT = VERIF / 'coq' / 'gen' / 'Formulas.v'
 sys.path.insert(0, str(VERIF))
-from translate.resolve import Flow, helper_inliner as generic_inliner      # noqa: E402
+from translate.resolve import Flow, helper_inliner as generic_inliner, parse_source      # noqa: E402
 
 
 class TranslatorError(Exception):
@@ -383,7 +383,8 @@ def kernel_part(km, out):
     emit('g_gain_d', symbolise(gd, M), SUMS)
     out.append(f'Definition gen_g_gain_where {ATOMS} : bool := {atoms.tr(symbolise(gw, M))}.')
     zo = [(t, v) for (_s, t, k, v) in stores if k == 'assign' and t.startswith(f'{ret}.array[1')]
-    okz = len(zo) == 1 and is_const(zo[0][1], 0) and zo[0][0] in (f'{ret}.array[1, {rp}.mask & {sp}.mask]', f'{ret}.array[1, {sp}.mask & {rp}.mask]')
+    okz = len(zo) == 1 and is_const(zo[0][1], 0) and zo[0][0] in (f'{ret}.array[1, {rp}.mask & {sp}.mask]', f'{ret}.array[1, {sp}.mask & {rp}.mask]',
+                                                                   f'{ret}.array[1][{rp}.mask & {sp}.mask]', f'{ret}.array[1][{sp}.mask & {rp}.mask]')
     out.append(f'Definition gen_g_offset_zero_ok : bool := {"true" if okz else "false"}.      (* offset := 0 on the joint mask *)')
     out.append(f'Definition gen_g_zeroing_ok : bool := {"true" if zeroing_ok(stores, sp, rp, jp) else "false"}.')
     r2calls = [s for s in fl.order if isinstance(s, ast.Expr) and isinstance(s.value, ast.Call) and U(s.value.func) == 'self._r2_array']
@@ -690,6 +691,30 @@ def compare_part(cm, out):
                 if U(dc.key) == k and U(dc.value) == f'{tgt}.get({k}, 0) + {v}' and isinstance(it, ast.Call) and isinstance(it.func, ast.Attribute) \
                         and it.func.attr == 'items' and tgt.endswith('.band_i]'):
                     oka = True
+    if not oka:
+        # ... or, with the sums held in a record class of the module: image_sums[band] = image_sums[band].add(block) where `add` returns the
+        # field-wise sum  C(*(a + b for a, b in zip(self, other)))  and every field of a fresh C() is 0
+        recs = {c.name: c for c in ast.walk(cm) if isinstance(c, ast.ClassDef) and any(U(b_) in ('NamedTuple', 'typing.NamedTuple') for b_ in c.bases)}
+        for n in ast.walk(fp):
+            if isinstance(n, ast.Assign) and isinstance(n.targets[0], ast.Subscript) and U(n.targets[0]).endswith('.band_i]') and isinstance(n.value, ast.Call) \
+                    and isinstance(n.value.func, ast.Attribute) and U(n.value.func.value) == U(n.targets[0]) and len(n.value.args) == 1 and not n.value.keywords:
+                for c in recs.values():
+                    flds = [st_ for st_ in c.body if isinstance(st_, ast.AnnAssign)]
+                    zero = bool(flds) and all(st_.value is not None and isinstance(st_.value, ast.Constant) and st_.value.value == 0 and not isinstance(st_.value.value, bool) for st_ in flds)
+                    for m_ in c.body:
+                        if isinstance(m_, ast.FunctionDef) and m_.name == n.value.func.attr and not m_.decorator_list and len(m_.args.args) == 2:
+                            a_, b_ = (x_.arg for x_ in m_.args.args)
+                            body = [st_ for st_ in m_.body if not (isinstance(st_, ast.Expr) and isinstance(st_.value, ast.Constant))]
+                            if len(body) == 1 and isinstance(body[0], ast.Return) and body[0].value is not None:
+                                r_ = body[0].value
+                                if isinstance(r_, ast.Call) and U(r_.func) in (c.name, f'type({a_})', f'{a_}.__class__') and len(r_.args) == 1 and isinstance(r_.args[0], ast.Starred) \
+                                        and isinstance(r_.args[0].value, (ast.GeneratorExp, ast.ListComp)) and not r_.keywords:
+                                    g_ = r_.args[0].value
+                                    if len(g_.generators) == 1 and not g_.generators[0].ifs and isinstance(g_.generators[0].target, ast.Tuple) and len(g_.generators[0].target.elts) == 2 \
+                                            and U(g_.generators[0].iter) in (f'zip({a_}, {b_})', f'zip({b_}, {a_})'):
+                                        p_, q_ = (U(e_) for e_ in g_.generators[0].target.elts)
+                                        init = any(isinstance(x_, ast.ListComp) and U(x_.elt) == f'{c.name}()' for x_ in ast.walk(fp))
+                                        oka = oka or (U(g_.elt) in (f'{p_} + {q_}', f'{q_} + {p_}') and zero and init)
     out.append(f'Definition gen_cmp_accumulate_ok : bool := {"true" if oka else "false"}.')
 
 
@@ -774,9 +799,9 @@ def stats_part(sm, out):
     out.append(f'Definition gen_st_inpaint_is_strictly_below : bool := {"true" if oki else "false"}.')
     okc = False
     if upd:
-        ifs_ = [n_ for n_ in ast.walk(f) if isinstance(n_, ast.If) and any(upd[0] is m_ for b_ in n_.body for m_ in ast.walk(b_))]
-        if len(ifs_) == 1:
-            tst = Flow._res(ifs_[0].test, fl.env0)
+        gs_ = fl.guard_nodes(upd[0])      # (path condition, with local names standing for what they were assigned)
+        if len(gs_) == 1 and gs_[0][1]:
+            tst = gs_[0][0]
             if isinstance(tst, ast.BoolOp) and isinstance(tst.op, ast.And):
                 parts = sorted(U(v) for v in tst.values)
                 okc = parts == sorted(['self._model == Model.gain_offset', 'self._r2_inpaint_thresh is not None', f'{band_p} >= self._param_im.count * 2 / 3'])
@@ -802,10 +827,10 @@ def stats_part(sm, out):
 
 def generate():
     out = []
-    km = ast.parse((REPO / 'homonim' / 'kernel_model.py').read_text())
+    km = parse_source((REPO / 'homonim' / 'kernel_model.py').read_text())
     kernel_part(km, out)
-    compare_part(ast.parse((REPO / 'homonim' / 'compare.py').read_text()), out)
-    stats_part(ast.parse((REPO / 'homonim' / 'stats.py').read_text()), out)
+    compare_part(parse_source((REPO / 'homonim' / 'compare.py').read_text()), out)
+    stats_part(parse_source((REPO / 'homonim' / 'stats.py').read_text()), out)
     return out
 
 
